@@ -31,6 +31,11 @@ const SOURCES: &[(&str, &str)] = &[
     // (the main flow ends in an implicit `done`, so running out of content needs a knot)
     ("run-out", "VAR ghost1 = 0\nOne.\n-> k\n=== k ===\nW1:{ghost1} two.\nE9: last line, then the content runs out.\n"),
     ("in-function", "VAR ghost1 = 0\nVAR ghost2 = 0\nStart {f()} done.\nNext.\n~ g()\nEnd.\n-> END\n=== function f() ===\nW1:{ghost1}\n~ return 3\n=== function g() ===\nW2:{ghost2} from g.\nSecond of g.\n"),
+    // warning and error pending at the end of the same continue: the error is raised before the
+    // line end, so it is not rewound with a look-ahead
+    ("warn-and-error-one-line", "VAR ghost1 = 0\nVAR bad1 = 0\nOne.\nW1:{ghost1} E1: same line -> bad1\n"),
+    ("error-first-continue", "VAR bad1 = 0\nE1: first line -> bad1\n"),
+    ("run-out-first", "VAR ghost1 = 0\n-> k\n=== k ===\nW1:{ghost1} E9: only line, then the content runs out.\n"),
     ("tunnel-error", "VAR ghost1 = 0\nVAR bad1 = 0\nBefore.\n-> t ->\nAfter tunnel.\n-> END\n=== t ===\nW1:{ghost1} in tunnel.\nE1: tunnel fails.\n-> bad1\n"),
 ];
 
@@ -44,7 +49,7 @@ fn strip_ghost_decls(json_text: &str) -> String {
 
 /// raise items of the generated family: slot `n` (1-based) owns ghost variable n and marker Wn
 const RAISE_ITEMS: &[&str] = &["plain", "warn", "warn-cond", "warn-glue", "warn-fn", "warn-choice", "warn-choice-text"];
-const TERMINATORS: &[&str] = &["end", "bad-divert", "run-out"];
+const TERMINATORS: &[&str] = &["end", "bad-divert", "run-out", "bad-divert-inline"];
 
 fn raise_item(a: usize, n: usize) -> (String, String) {
     match RAISE_ITEMS[a] {
@@ -82,9 +87,10 @@ pub fn family_nth(k: usize, mut i: usize) -> (String, String) {
     let ending = match TERMINATORS[term] {
         "end" => "Last.\n-> END\n".to_string(),
         "bad-divert" => "E1: next fails.\n-> bad1\n".to_string(),
+        "bad-divert-inline" => "W4:{ghost4} E1: fails before the line ends -> bad1\n".to_string(),
         _ => "-> k\n=== k ===\nE9: last line, then the content runs out.\n".to_string(),
     };
-    (name, format!("VAR ghost1 = 0\nVAR ghost2 = 0\nVAR ghost3 = 0\nVAR bad1 = 0\n{body}{ending}{tail}"))
+    (name, format!("VAR ghost1 = 0\nVAR ghost2 = 0\nVAR ghost3 = 0\nVAR ghost4 = 0\nVAR bad1 = 0\n{body}{ending}{tail}"))
 }
 
 pub fn programs() -> Vec<Rc<Prog>> {
@@ -115,7 +121,7 @@ fn hand_written() -> Vec<Rc<Prog>> {
             for version in [21, 20] {
                 let mut j = strip_ghost_decls(&p.json);
                 if version != 21 {
-                    if name != &"straight" && name != &"choices" {
+                    if !["straight", "choices", "error-first-continue", "run-out-first", "warn-and-error-one-line"].contains(name) {
                         continue;
                     }
                     j = j.replace("\"inkVersion\":21", "\"inkVersion\":20");
@@ -295,7 +301,13 @@ fn judge_path(prog: &Rc<Prog>, setup: &Setup, hist: &[Op], stats: &mut Stats) {
             }
         }
         if bad.is_none() && version_warning && !had_reset {
-            let got = msgs.iter().filter(|(t, m)| *t == 'W' && m.contains("Version of ink")).count();
+            // (raised once per story object, so counted over the whole handler log, not only the
+            // epoch that starts at a redirect)
+            let got = if setup.handler {
+                inst.events_raw().iter().filter(|e| e.starts_with("handler:W:") && e.contains("Version of ink")).count()
+            } else {
+                msgs.iter().filter(|(t, m)| *t == 'W' && m.contains("Version of ink")).count()
+            };
             let any_cont = hist.iter().any(|x| matches!(x, Op::Cont));
             if (any_cont || !setup.handler) && got != 1 {
                 bad = Some((format!("{mode}/version-warning/count"), format!("the constructor's version warning was delivered {got} time(s)")));
